@@ -11,9 +11,9 @@ from .. import tlc, vloop, tracecheck, common
 from .c06_asgi import scenarios, NODISC, ProducerError
 
 INV = ["TypeOK", "DeliveredInOrder", "ClosedOnce", "Settled", "CompleteWhenUndisturbed", "RaisedIsReported", "RaisedOnlyIfProducerRaised",
-       "NothingAfterFinal", "Cooperative"]
+       "NothingAfterFinal", "Cooperative", "SendFailureReported", "NothingAfterFailure"]
 ACTIONS = ["MSendStart", "MSpawn", "MTop", "MLoop", "MWake", "MTimeout", "MSendBody", "MSent", "MRsFin", "MFin", "MAclose", "MRaise", "MSendFinal",
-           "MReturn", "PStart", "PCheck", "PItem", "PEnd", "PRaise", "PPut", "PPutWake", "PCancelAnext", "PCancelPut", "PFinally", "PNoneWake",
+           "MSendFailed", "MReturn", "PStart", "PCheck", "PItem", "PEnd", "PRaise", "PPut", "PPutWake", "PCancelAnext", "PCancelPut", "PFinally", "PNoneWake",
            "PCancelNone", "PAclose", "WStart", "WDisc", "WCancelled"]
 
 
@@ -163,7 +163,13 @@ async def play(c):
             log("disc")
         return {"type": "http.disconnect"}
 
+    nsend = [0]
+
     async def send(m):
+        nsend[0] += 1
+        if c.get("failAt") and nsend[0] == c["failAt"]:
+            log("send_fail")
+            raise OSError("simulated send failure")
         if m["type"] == "http.response.start":
             log("send_start")
         elif m["type"] == "http.response.body":
@@ -191,6 +197,11 @@ async def play(c):
             log("return")
         except ProducerError:
             log("raise")
+        except OSError as e:
+            if c.get("failAt") and "simulated send failure" in str(e):
+                log("sendfailed")
+            else:
+                exc = type(e).__name__
         except asyncio.TimeoutError:
             exc = "NeverReturned"
         except BaseException as e:  # noqa
@@ -204,9 +215,28 @@ async def play(c):
     return events, {"exc": exc, "pending": len(pending), "closed": state["closed"], "begun": state["begun"]}
 
 
+def fail_scenarios(tier):
+    """send() raising at its k-th call (a server that lost the connection), crossed with producer speed, producer failure and a
+    disconnect: the call must end with that error (or the producer's), clean up once, leave no task"""
+    import itertools
+    out = []
+    for kind in ("sse", "stream"):
+        for k in ((0, 1, 2) if tier == "quick" else (0, 1, 2, 3)):
+            for gaps in itertools.product((0, 3), repeat=k):
+                for raise_at in range(0, k + 2):
+                    for disc in (NODISC, 1, 3):
+                        for fail_at in range(1, k + 4):
+                            for send_cost in (0, 1):
+                                if send_cost and (disc != NODISC or raise_at):
+                                    continue
+                                out.append({"kind": kind, "gaps": list(gaps), "endGap": 0, "ping": 2, "disc": disc, "raiseAt": raise_at,
+                                            "sendCost": send_cost, "k": k, "failAt": fail_at})
+    return out
+
+
 def run_task_level(ctx, wd):
     tlc.sany(wd + "/SseAsgi.tla")
-    K = dict(MaxN=2, MaxPings=2, Drain=True)
+    K = dict(MaxN=2, MaxPings=2, MaxFail=5, Drain=True)
     cfg = ["SPECIFICATION Spec", "CHECK_DEADLOCK FALSE"] + ["INVARIANT " + i for i in INV]
     tlc.write_mc(wd, "MC_SseAsgi", "SseAsgi", constants=K, cfg_lines=cfg)
     res = tlc.run_tlc(wd, "MC_SseAsgi", workers=4)
@@ -221,21 +251,21 @@ def run_task_level(ctx, wd):
         if lres.violated:
             raise common.MachineryError("SseAsgi.tla liveness %s: %s" % (prop, tlc.describe(lres)))
     # witness: without emptying the queue before cancelling, the relay task blocks for ever in its final put
-    tlc.write_mc(wd, "MC_SseAsgiNoDrain", "SseAsgi", constants=dict(K, Drain=False),
+    tlc.write_mc(wd, "MC_SseAsgiNoDrain", "SseAsgi", constants=dict(K, Drain=False, MaxFail=0),
                  cfg_lines=["SPECIFICATION FairSpec", "CHECK_DEADLOCK FALSE", "PROPERTY Terminates"])
     wres = tlc.run_tlc(wd, "MC_SseAsgiNoDrain", workers=4, coverage=False)
     if wres.violated != "Terminates":
         raise common.MachineryError("witness failed: SseAsgi.tla with Drain=FALSE does not violate Terminates (%s)" % wres.violated)
     ctx.notes.append("witness: render_stream not draining the queue (Drain=FALSE) violates Terminates: the relay task stays blocked in put(None)")
 
-    sc = [c for c in scenarios(ctx.tier) if c["kind"] == "sse"]
+    sc = [c for c in scenarios(ctx.tier) if c["kind"] == "sse"] + [c for c in fail_scenarios(ctx.tier) if c["kind"] == "sse"]
     traces, infos = [], []
     for c in sc:
         try:
             ev, info = vloop.run(play(c))
         except vloop.Deadlock as e:
             ev, info = [], {"exc": "Deadlock:" + str(e), "pending": 0, "closed": 0, "begun": False}
-        traces.append({"n": c["k"], "raiseAt": c["raiseAt"], "events": ev})
+        traces.append({"n": c["k"], "raiseAt": c["raiseAt"], "failAt": c.get("failAt", 0), "events": ev})
         infos.append(info)
         ctx.count()
         case = {"scenario": c}
@@ -245,9 +275,9 @@ def run_task_level(ctx, wd):
             ctx.violation(case, "no pending task", info, "ASGI event stream: %d task(s) still pending after the call returned and the loop ran on" % info["pending"])
         elif info["begun"] and info["closed"] != 1:
             ctx.violation(case, "cleanup exactly once", info, "ASGI event stream: the user's generator cleanup ran %d time(s)" % info["closed"])
-        if c["disc"] != NODISC or c["raiseAt"]:
+        if c["disc"] != NODISC or c["raiseAt"] or c.get("failAt"):
             ctx.nontriv(("sse-task",) + tuple(sorted((k, str(v)) for k, v in c.items())))
-    acc, rejected = tracecheck.validate(wd, "TraceSseAsgi", traces, constants=dict(MaxN=3, MaxPings=100000, Drain=True), invariants=INV)
+    acc, rejected = tracecheck.validate(wd, "TraceSseAsgi", traces, constants=dict(MaxN=3, MaxPings=100000, MaxFail=100, Drain=True), invariants=INV)
     ctx.traces_validated += acc
     ctx.bounds["asgi_task_level"] = {"scenarios": len(sc), "events": sum(len(t["events"]) for t in traces)}
     for tid, name, st in tracecheck.validate.last_invariant_failures:
@@ -261,15 +291,16 @@ def run_task_level(ctx, wd):
     ctx.sample({"asgi_task_scenario": sc[len(sc) // 3], "events": [e["e"] + ("(%s)" % e["x"] if e["x"] else "") for e in traces[len(sc) // 3]["events"]]})
 
 
-PLAIN_INV = ["DeliveredInOrder", "ClosedOnce", "Settled", "CompleteWhenUndisturbed", "RaisedIsReported", "RaisedOnlyIfProducerRaised"]
+PLAIN_INV = ["DeliveredInOrder", "ClosedOnce", "Settled", "CompleteWhenUndisturbed", "RaisedIsReported", "RaisedOnlyIfProducerRaised",
+             "SendFailureReported", "NothingAfterFailure"]
 PLAIN_ACTIONS = ["MSendStart", "MSpawn", "MTop", "MItem", "MEnd", "MProducerRaise", "MRelease", "MSendBody", "MSent", "MFin", "MRaise", "MSendFinal",
-                 "MReturn", "WStart", "WDisc", "WCancelled"]
+                 "MSendFailed", "MReturn", "WStart", "WDisc", "WCancelled"]
 
 
 def run_plain_stream(ctx, wd):
     """the plain ASGI StreamResponse (two tasks): StreamAsgiTask.tla by TLC, every virtual-time execution validated against it"""
     tlc.sany(wd + "/StreamAsgiTask.tla")
-    K = dict(MaxN=2)
+    K = dict(MaxN=2, MaxFail=5)
     tlc.write_mc(wd, "MC_StreamAsgiTask", "StreamAsgiTask", constants=K,
                  cfg_lines=["SPECIFICATION Spec", "CHECK_DEADLOCK FALSE"] + ["INVARIANT " + i for i in PLAIN_INV])
     res = tlc.run_tlc(wd, "MC_StreamAsgiTask", workers=4)
@@ -282,14 +313,14 @@ def run_plain_stream(ctx, wd):
         lres = tlc.run_tlc(wd, "MC_StreamAsgiTaskLive", workers=4, coverage=False)
         if lres.violated:
             raise common.MachineryError("StreamAsgiTask.tla liveness %s: %s" % (prop, tlc.describe(lres)))
-    sc = [c for c in scenarios(ctx.tier) if c["kind"] == "stream"]
+    sc = [c for c in scenarios(ctx.tier) if c["kind"] == "stream"] + [c for c in fail_scenarios(ctx.tier) if c["kind"] == "stream"]
     traces = []
     for c in sc:
         try:
             ev, info = vloop.run(play(c))
         except vloop.Deadlock as e:
             ev, info = [], {"exc": "Deadlock:" + str(e), "pending": 0, "closed": 0, "begun": False}
-        traces.append({"n": c["k"], "raiseAt": c["raiseAt"], "events": ev})
+        traces.append({"n": c["k"], "raiseAt": c["raiseAt"], "failAt": c.get("failAt", 0), "events": ev})
         ctx.count()
         case = {"scenario": c}
         if info["exc"] and info["exc"] != "NeverReturned":
@@ -298,7 +329,7 @@ def run_plain_stream(ctx, wd):
             ctx.violation(case, "no pending task", info, "ASGI stream: %d task(s) still pending after the call returned and the loop ran on" % info["pending"])
         elif info["begun"] and info["closed"] != 1 and not info["exc"]:
             ctx.violation(case, "cleanup exactly once", info, "ASGI stream: the user's generator cleanup ran %d time(s)" % info["closed"])
-    acc, rejected = tracecheck.validate(wd, "TraceStreamAsgiTask", traces, constants=dict(MaxN=3), invariants=PLAIN_INV)
+    acc, rejected = tracecheck.validate(wd, "TraceStreamAsgiTask", traces, constants=dict(MaxN=3, MaxFail=100), invariants=PLAIN_INV)
     ctx.traces_validated += acc
     ctx.bounds["asgi_task_level_plain"] = {"scenarios": len(sc), "events": sum(len(t["events"]) for t in traces)}
     for tid, name, st in tracecheck.validate.last_invariant_failures:
